@@ -67,32 +67,41 @@ def cond(node, params):
     err(node, "condition outside the command grammar")
 
 
-def lower_if(test, then, orelse, params):
-    """`if A and B` / `if A or B` / `if not A` are written out with the IR's single-condition SIf (conditions have no effects, so
-    evaluating the nested form is the short-circuit evaluation): A and B -> if A then (if B then T else E) else E, etc."""
+def lower_if(test, then_k, else_k, params, ctx):
+    """One `if` of the source as IR statements.  `and` / `or` / `not` are written out with the IR's single-condition SIf
+    (conditions are pure functions of the arguments and the API version, which do not change during the call, so the nested form
+    is the short-circuit evaluation: A and B -> if A then (if B then T else E) else E, ...), and a condition that is already
+    decided on the current path (the same test occurred in an enclosing `if`) selects its branch at once.
+    then_k / else_k produce the branch bodies for a given path context (set of conditions known true, set known false)."""
+    true, false = ctx
     if isinstance(test, ast.BoolOp) and isinstance(test.op, ast.And):
-        inner = then
-        for t in reversed(test.values[1:]):
-            inner = [lower_if(t, inner, orelse, params)]
-        return lower_if(test.values[0], inner, orelse, params)
+        rest = test.values[1:]
+        inner = (lambda c: lower_if(rest[0] if len(rest) == 1 else ast.BoolOp(op=ast.And(), values=rest), then_k, else_k, params, c))
+        return lower_if(test.values[0], inner, else_k, params, ctx)
     if isinstance(test, ast.BoolOp) and isinstance(test.op, ast.Or):
-        inner = orelse
-        for t in reversed(test.values[1:]):
-            inner = [lower_if(t, then, inner, params)]
-        return lower_if(test.values[0], then, inner, params)
+        rest = test.values[1:]
+        inner = (lambda c: lower_if(rest[0] if len(rest) == 1 else ast.BoolOp(op=ast.Or(), values=rest), then_k, else_k, params, c))
+        return lower_if(test.values[0], then_k, inner, params, ctx)
     if isinstance(test, ast.UnaryOp) and isinstance(test.op, ast.Not):
-        return lower_if(test.operand, orelse, then, params)
-    return f"SIf {cond(test, params)} {coq_list(then, per_line=8)} {coq_list(orelse, per_line=8)}"
+        return lower_if(test.operand, else_k, then_k, params, ctx)
+    c = cond(test, params)
+    if c in true:
+        return then_k(ctx)
+    if c in false:
+        return else_k(ctx)
+    th = then_k((true | {c}, false))
+    el = else_k((true, false | {c}))
+    return [f"SIf {c} {coq_list(th, per_line=8)} {coq_list(el, per_line=8)}"]
 
 
-def stmts(nodes, params, msgvar):
+def stmts(nodes, params, msgvar, ctx=(frozenset(), frozenset())):
     out = []
     for n in nodes:
         if isinstance(n, ast.If):
             # `if TYPE_CHECKING: assert ...` carries no behaviour
             if isinstance(n.test, ast.Name) and n.test.id == "TYPE_CHECKING" and all(isinstance(x, ast.Assert) for x in n.body) and not n.orelse:
                 continue
-            out.append(lower_if(n.test, stmts(n.body, params, msgvar), stmts(n.orelse, params, msgvar), params))
+            out.extend(lower_if(n.test, lambda c, n=n: stmts(n.body, params, msgvar, c), lambda c, n=n: stmts(n.orelse, params, msgvar, c), params, ctx))
         elif isinstance(n, ast.Assign) and len(n.targets) == 1 and isinstance(n.targets[0], ast.Attribute) \
                 and isinstance(n.targets[0].value, ast.Name) and n.targets[0].value.id == msgvar:
             out.append(f"SAssign {coq_string(n.targets[0].attr)} {expr(n.value, params)}")
